@@ -119,7 +119,7 @@ func (u *Unit) runInits(st *State, pkg *ssa.Package) {
 func newState(u *Unit) *State {
 	return &State{
 		cells: map[int]Val{}, regions: map[string]*Region{}, edges: map[string][]Edge{},
-		canon: map[string]string{}, memo: map[string]Val{}, visits: map[string]int{}, maps: map[int]*MapState{},
+		canon: map[string]string{}, symCells: map[int]bool{}, memo: map[string]Val{}, visits: map[string]int{}, maps: map[int]*MapState{},
 		wm: u.alloc0,
 	}
 }
